@@ -37,6 +37,24 @@ def _l1_contig_jobs(n: int, l0: int, l1: int, l2: int, l3: int, l4: int, star: i
     return S.check_contig_jobs(_contig_block, contigs) is None
 
 
+BIG_NAMES = ['k%02d' % i for i in range(14)]
+
+
+def _l1b_many_contigs(n: int, a: int, b: int, star: bool) -> bool:
+    """
+    pre: 0 <= n <= 13
+    pre: 0 <= a <= b <= n
+    post: _
+    """
+    # n contigs: [0,a) small, [a,b) large, [b,n) small  (+ optional idxstats '*' entry at the end, where samtools puts it)
+    contigs = []
+    for i in range(n):
+        contigs.append((BIG_NAMES[i], 5_000_000 if a <= i < b else 900))
+    if star:
+        contigs.append(('*', 0))
+    return S.check_contig_jobs(_contig_block, contigs) is None
+
+
 def _l2_region_jobs(n: int, L0: int, L1: int, b: int, bpj: int, F: int, wl: int) -> bool:
     """
     pre: 1 <= n <= 2
@@ -75,11 +93,22 @@ def _l4_writer(n: int, s0: int, s1: int, s2: int, h0: bool, h1: bool, h2: bool) 
     return S.check_tagging_task(TG.run_tagging_task, specs, None) is None
 
 
+def _l5_job(n: int, c0: int, c1: int, c2: int, v0: bool, v1: bool, v2: bool, v3: bool) -> bool:
+    """
+    pre: 1 <= n <= 3
+    pre: 0 <= c0 <= 2 and 0 <= c1 <= 2 and 0 <= c2 <= 2
+    pre: c0 + c1 + c2 <= 4
+    post: _
+    """
+    return S.check_tagging_job(TG, [c0, c1, c2][:n], [v0, v1, v2, v3]) is None
+
+
 _T = {'quick': 150, 'thorough': 900}
 LEMMAS = [
     dict(name='L1_contig_jobs', fn='_l1_contig_jobs', engine='E1', timeout=_T, replay='replay.C05:replay',
          cases={'quick': [dict(id='n%d' % n, pre=['n == %d' % n]) for n in (0, 1, 2, 3, 4)],
                 'thorough': [dict(id='n%d' % n, pre=['n == %d' % n]) for n in (0, 1, 2, 3, 4, 5)]}),
+    dict(name='L1b_many_contigs', fn='_l1b_many_contigs', engine='E1', timeout=_T, replay='replay.C05:replay'),
     dict(name='L2_region_jobs', fn='_l2_region_jobs', engine='E1', timeout=_T, replay='replay.C05:replay',
          cases={'quick': [dict(id='n%d_L%d' % (n, L), pre=['n == %d' % n, 'L0 == %d' % L]) for n in (1, 2) for L in (1, 2, 3, 4)],
                 'thorough': [dict(id='n%d_L%d' % (n, L), pre=['n == %d' % n, 'L0 == %d' % L]) for n in (1, 2) for L in (1, 2, 3, 4, 5)]}),
@@ -87,13 +116,14 @@ LEMMAS = [
          cases={'quick': [dict(id='n%d_p%d' % (n, p), pre=['n == %d' % n, 'pooling == %d' % p]) for n in (1, 2, 3) for p in (0, 1)],
                 'thorough': [dict(id='n%d_p%d' % (n, p), pre=['n == %d' % n, 'pooling == %d' % p]) for n in (1, 2, 3, 4) for p in (0, 1)]}),
     dict(name='L4_writer_step', fn='_l4_writer', engine='E1', timeout=_T, replay='replay.C05:replay'),
+    dict(name='L5_job_bookkeeping', fn='_l5_job', engine='E1', timeout=_T, replay='replay.C05:replay'),
 ]
 
 PROPERTY = dict(
     functions=['bamtagmultiome.tag_multiome_multi_processing: `if one_contig_per_process:` block and its else branch (AST cut, E3)',
                'bamBinCounts.blacklisted_binning_contigs / blacklisted_binning', 'utils.binning.bp_chunked',
-               'molecule.iterator.MoleculeIterator.__iter__', 'tagging.run_tagging_task'],
-    bounds={'quick': dict(contigs='<=4 contigs with arbitrary positive lengths, optional (*,0) idxstats entry at any position',
+               'molecule.iterator.MoleculeIterator.__iter__', 'tagging.run_tagging_task', 'tagging.run_tagging_tasks (job bookkeeping: a job that wrote records keeps its output)'],
+    bounds={'quick': dict(contigs='<=4 contigs with arbitrary positive lengths, optional (*,0) idxstats entry at any position; and 0..13 contigs in every small* large* small* pattern',
                           region_mode='<=2 contigs of length <=4/4, bin<=5, bp_per_job<=7, fragment size unbounded',
                           iterator='<=3 fragments, symbolic validity, 2 keys, cap 0..2 (0 = none), both pooling methods, check_eject_every None/0..3',
                           writer='<=3 molecules, arbitrary sites'),
